@@ -1,4 +1,5 @@
 """C16 - strftime/strptime and RFC 2822: specifier sets and name tables agree, redundant parsed fields are checked, parsers cannot panic."""
+from ..rules_r5 import sibling_source
 import re
 from .. import mir
 from ..e1 import src_line
@@ -58,6 +59,7 @@ def run(ctx, rep):
     from ..rules_parse import minute_offset_print
     minute_offset_print(rep, ctx.prog("Q"))
     prog = ctx.prog("Q")
+    sibling_source(rep, prog)
     rep.notes.append("Does not decide agreement with the C library, week-number arithmetic or the %y pivot.")
     specifier_set(rep, prog)
     name_tables(rep, prog)
